@@ -35,7 +35,7 @@ def build_fn(case, var):
     from jaxtyping import jaxtyped
     order = var["order"]
     by = {p["name"]: p for p in case["params"]}
-    ann = {n: getattr(jaxtyping, by[n]["cat"])[np.ndarray, by[n]["dim"]] for n in order}
+    ann = {n: make_annotation(by[n]) for n in order}          # (also unions of array annotations)
     ret = case.get("ret")
     retv = np.zeros(tuple(case["ret_shape"]), dtype=case.get("ret_dtype", "float32")) if ret else None
     tc = get_checker(var["checker"])
@@ -164,8 +164,16 @@ def run_error_case(case):
             Config = type("Config", (), {})
             if lc:
                 vals["cfg"] = Config()
-            src = "def fname(%s):\n    return RET\n" % ", ".join(allnames)
+            # optionally the parameters from some position on have defaults, and the caller passes those very objects explicitly
+            # (f(x, y=Y0) called as f(x, Y0)): an explicitly passed value is checked like any other
             g = {"RET": retv}
+            sig = list(allnames)
+            if case.get("defaults") is not None and order:
+                k0 = allnames.index(order[min(case["defaults"], len(order) - 1)])
+                for i in range(k0, len(allnames)):
+                    g["DEF_" + allnames[i]] = vals[allnames[i]]
+                    sig[i] = "%s=DEF_%s" % (allnames[i], allnames[i])
+            src = "def fname(%s):\n    return RET\n" % ", ".join(sig)
             exec(src, g)
             f = g["fname"]
             f.__annotations__ = dict(ann)
@@ -201,7 +209,19 @@ def run_error_case(case):
                     r["expected_axes"], r["expected_structs"], r["expected_valid"] = ea, es, bool(okall) and (r["stage"] == "return" or r["blamed"] in by)
                 except Exception as e2:  # noqa
                     r["expected_valid"] = False
-                # oracle: the blamed parameter fails after its predecessors pass, in a fresh context
+                # oracle for "names a parameter": when no parameter is named at the parameter stage, is there one that fails
+                # after its predecessors pass (fresh context)?
+                if r["stage"] == "params" and r["blamed"] is None:
+                    ff = None
+                    try:
+                        with jaxtyped("context"):
+                            _storage.get_shape_memo()[3].update(vals)
+                            for n in order:
+                                if not check_value(vals[n], by[n]):
+                                    ff = n; break
+                    except Exception:  # noqa
+                        ff = None
+                    r["first_failing"] = ff
                 if r["blamed"] is not None and r["blamed"] in by:
                     with jaxtyped("context"):
                         _storage.get_shape_memo()[3].update(vals)
